@@ -261,6 +261,8 @@ pub fn run(ctx: &Ctx) {
         vec!["if a then b else c", "if a then b else c ", "ifa then b else c", "if a thenb else c"],
         vec!["a. b .0", "a.b.0", "a .b. 0", "a.b .0 "],
         vec!["f (a)", "f(a)", "f ( a )", "f\n(a)"],
+        vec!["i1 // c\r+ i2", "i1 // c\n+ i2", "i1 // c\r\n+ i2", "i1 // c + i2"],
+        vec!["i1 // c\ri2", "if a then b // c\relse c", "[a // x\r, b]", "a // x\r\r contains b"],
     ];
     ctx.list(
         "whitespace-vs-token-sequence",
